@@ -27,10 +27,12 @@ API_KINDS = [
     "status_infeasible",
     "status_unbounded",
     "status_undefined",
+    "ok_zero_noise",
 ]
 API_ASSIGN = ["none", "partial", "full"]
 CBC_KINDS = [
     "ok",
+    "ok_zero_noise",
     "not_executable",
     "exit_nonzero",
     "no_sol_file",
@@ -43,6 +45,7 @@ CBC_KINDS = [
 ]
 HIGHS_KINDS = [
     "ok",
+    "ok_zero_noise",
     "not_executable",
     "exit_minus1",
     "infeasible",
@@ -62,6 +65,7 @@ STATUS_OF_KIND = {
 }
 
 FAKE_HIGHS = "/sim/bin/highs"
+ZERO_NOISE = 1.1102230246251565e-16
 
 
 class HarnessError(Exception):
@@ -193,6 +197,11 @@ class SimSolver(pulp.LpSolver):
             events.fired("api.ok_tolerance")
             env.end_solve(info, delivered=True, how="ok_tolerance")
             return lp.status
+        noise = kind == "ok_zero_noise"
+        if noise:
+            # a healthy answer with the numeric texture of a real branch-and-cut code: the columns that are zero come
+            # back as round-off residue far inside the integrality tolerance (1e-16), the chosen ones as exactly 1
+            kind = "ok"
         if kind != "ok":
             raise HarnessError("unknown api fault kind %r" % kind)
         if result["status"] != "optimal":
@@ -217,9 +226,9 @@ class SimSolver(pulp.LpSolver):
                 env.end_solve(info, delivered=False, how="requested-time-limit")
                 return lp.status
         for v in variables:
-            v.varValue = float(chosen[keyof[id(v)]])
+            v.varValue = float(chosen[keyof[id(v)]]) or (ZERO_NOISE if noise else 0.0)
         lp.assignStatus(pulp.LpStatusOptimal)
-        events.fired("api.ok")
+        events.fired("api.ok_zero_noise" if noise else "api.ok")
         env.end_solve(info, delivered=True, how="ok")
         return lp.status
 
@@ -374,7 +383,10 @@ class FakeCbcProc:
             fault = {"kind": "ok", "tie": env.secondary_fault.get("tie", 0)}
             events.fired("cbc.consulted_as_second_choice")
         kind = fault.get("kind", "ok")
-        info = env.begin_solve("cbc", kind)
+        cbc_noise = kind == "ok_zero_noise"
+        if cbc_noise:
+            kind = "ok"
+        info = env.begin_solve("cbc", "ok_zero_noise" if cbc_noise else kind)
         argv = self.argv
         mps = argv[1]
         sol = argv[argv.index("-solution") + 1]
@@ -430,9 +442,9 @@ class FakeCbcProc:
                     chosen, value = loose, model.evaluate(loose)
                     events.fired("cbc.ok_within_requested_gap")
                 head = "Optimal - objective value %.8f\n" % float(value)
-                body = _cbc_sol_lines(model, chosen)
+                body = _cbc_sol_lines(model, {k: (x or ZERO_NOISE) for k, x in chosen.items()} if cbc_noise else chosen)
                 delivered = True
-                events.fired("cbc.ok")
+                events.fired("cbc.ok_zero_noise" if cbc_noise else "cbc.ok")
             else:
                 head = "Infeasible - objective value 0.00000000\n"
                 body = _cbc_sol_lines(model, zeros, star=True)
@@ -503,7 +515,10 @@ class FakeHighsProc:
             fault = {"kind": "ok", "tie": env.secondary_fault.get("tie", 0)}
             events.fired("highs.consulted_as_second_choice")
         kind = fault.get("kind", "ok")
-        info = env.begin_solve("highs", kind)
+        highs_noise = kind == "ok_zero_noise"
+        if highs_noise:
+            kind = "ok"
+        info = env.begin_solve("highs", "ok_zero_noise" if highs_noise else kind)
         argv = self.argv
         mps = argv[1]
         optfile = [a.split("=", 1)[1] for a in argv if a.startswith("--options_file=")][0]
@@ -568,7 +583,7 @@ class FakeHighsProc:
                 events.fired("highs.sol_unreadable")
             else:
                 delivered = True
-                events.fired("highs.ok")
+                events.fired("highs.ok_zero_noise" if highs_noise else "highs.ok")
         elif kind in ("ok", "sol_unreadable", "timelimit_feasible") and chosen is None:
             status, solstatus = "Infeasible", "-"
             events.fired("highs.model_infeasible")
@@ -608,7 +623,7 @@ class FakeHighsProc:
         if write_solution is not None:
             out = ["Model status", status, "", "# Primal solution values", "Feasible",
                    "Objective %s" % _fmt(value), "# Columns %d" % len(model.names)]
-            out += ["%s %s" % (v, _fmt(write_solution[v])) for v in model.names]
+            out += ["%s %s" % (v, _fmt(write_solution[v] or (ZERO_NOISE if highs_noise else 0))) for v in model.names]
             if rows_marker:
                 out.append("# Rows %d" % len(model.rows))
                 for rname, coefs, _, _ in model.rows:
